@@ -1,4 +1,5 @@
 //verif:pkg pkg/model
+//verif:assume the documented alphabet (letters, decimal digits, hyphen; labels also connector punctuation) is the Unicode 15 category/property data for runes below U+0800, written out as a table (harness/C20/alpha_table.go); runes from U+0800 are outside the bound
 //verif:assume names are non-empty and contain no '/' byte (VerifC20Validators decides that the validators guarantee this); name lengths 1..3 bytes, all byte values symbolic
 //verif:assume diamond / generation / bundle ids are concrete well-formed ksuids (ksuid base62 parsing is division-heavy); file-list indices drawn from a boundary list {0,1,9,10,999,1000,2^32,2^63-1,2^63,2^64-1}
 //verif:assume regexp: compiled program of the pattern literal found in the code, unrolled as an NFA over the subject bytes; symbolic subject bytes are ASCII
@@ -6,6 +7,7 @@
 //verif:cover VerifC20ArchivePaths repo label bundle filelist context diamond split splitfilelist
 //verif:cover VerifC20Generated len16
 //verif:cover VerifC20Validators two-byte-rune
+//verif:cover VerifC20Distinct different-kinds same-kind
 //verif:cover VerifC20ConsumablePaths filelist descriptor
 package model
 
@@ -72,13 +74,17 @@ func VerifC20ArchivePaths() {
 		vAssert(vStrEqual(c.Context, ctx), "context-round-trips")
 	case 5:
 		vCover("diamond")
-		final := vBool("final")
-		var p string
+		// every state a diamond can be written in: initialized -> running descriptor, done / canceled -> final descriptor
+		states := []DiamondState{DiamondInitialized, DiamondDone, DiamondCanceled}
+		st := states[vChoose("state", 3)]
+		final := st != DiamondInitialized
+		p := GetArchivePathToDiamond(repo, vKsuid1, st)
 		if final {
-			p = GetArchivePathToFinalDiamond(repo, vKsuid1)
+			vAssert(vStrEqual(p, GetArchivePathToFinalDiamond(repo, vKsuid1)), "final-diamond-path")
 		} else {
-			p = GetArchivePathToInitialDiamond(repo, vKsuid1)
+			vAssert(vStrEqual(p, GetArchivePathToInitialDiamond(repo, vKsuid1)), "initial-diamond-path")
 		}
+		vAssert(vNot(vStrEqual(GetArchivePathToFinalDiamond(repo, vKsuid1), GetArchivePathToInitialDiamond(repo, vKsuid1))), "running-and-final-diamond-paths-differ")
 		c, err := GetArchivePathComponents(p)
 		vAssert(err == nil, "diamond-path-parses")
 		vAssert(vStrEqual(c.Repo, repo), "diamond-repo-round-trips")
@@ -86,13 +92,16 @@ func VerifC20ArchivePaths() {
 	case 6:
 		vCover("split")
 		split := vName("split")
-		final := vBool("final")
-		var p string
+		states := []SplitState{SplitRunning, SplitDone}
+		st := states[vChoose("state", 2)]
+		final := st == SplitDone
+		p := GetArchivePathToSplit(repo, vKsuid1, split, st)
 		if final {
-			p = GetArchivePathToFinalSplit(repo, vKsuid1, split)
+			vAssert(vStrEqual(p, GetArchivePathToFinalSplit(repo, vKsuid1, split)), "final-split-path")
 		} else {
-			p = GetArchivePathToInitialSplit(repo, vKsuid1, split)
+			vAssert(vStrEqual(p, GetArchivePathToInitialSplit(repo, vKsuid1, split)), "initial-split-path")
 		}
+		vAssert(vNot(vStrEqual(GetArchivePathToFinalSplit(repo, vKsuid1, split), GetArchivePathToInitialSplit(repo, vKsuid1, split))), "running-and-final-split-paths-differ")
 		c, err := GetArchivePathComponents(p)
 		vAssert(err == nil, "split-path-parses")
 		vAssert(vAnd(vStrEqual(c.Repo, repo), vStrEqual(c.SplitID, split)), "split-round-trips")
@@ -168,28 +177,43 @@ func VerifC20Generated() {
 
 // ---- validators -----------------------------------------------------------------
 
-// VerifC20Validators: ValidateRepo / ValidateLabel accept a name only if it
-// holds no '/', accept exactly the documented alphabet on ASCII names, and
-// never panic. Names: 1..3 ASCII bytes (quick), plus a Latin-1 letter
-// (2-byte rune U+00C0..U+00FF) followed by an arbitrary ASCII byte, and in the
-// thorough tier arbitrary 2-byte sequences.
+// VerifC20Validators: ValidateRepo / ValidateLabel never panic and accept a
+// name exactly when every rune of it belongs to the documented alphabet
+// (letters, decimal digits, hyphens; labels also connector punctuation),
+// the alphabet being written out as data for every rune below U+0800
+// (vAlphaTable). Names: 1..3 ASCII bytes; a 2-byte rune (every lead byte
+// C2..DF, every continuation byte) alone, before or after an ASCII byte;
+// thorough: also arbitrary (possibly ill-formed) 2-byte sequences.
 func VerifC20Validators() {
 	vBudget(20000000)
 	vUnwind(3000)
 	var name string
-	shape := vChoose("shape", 3)
+	var runes []int // the name as runes (symbolic), for the oracle
+	shape := vChoose("shape", 5)
 	switch shape {
 	case 0:
 		n := vChoose("nameLen", 3) + 1 // 1..3 ASCII bytes
 		name = vString("name", n)
 		for i := 0; i < n; i++ {
 			vAssume(name[i] < 0x80)
+			runes = append(runes, int(name[i]))
 		}
-	case 1:
-		// a 2-byte Latin-1 rune then one ASCII byte
-		lo := vByte("lat", 0x80, 0xBF)
-		c := vByte("tail", 0, 0x7f)
-		name = string([]byte{0xC3, lo, c})
+	case 1, 2, 3:
+		hi := vByte("lead", 0xC2, 0xDF)
+		lo := vByte("cont", 0x80, 0xBF)
+		r := (int(hi)&0x1F)<<6 | int(lo)&0x3F
+		c := vByte("ascii", 0, 0x7f)
+		switch shape {
+		case 1:
+			name = string([]byte{hi, lo})
+			runes = []int{r}
+		case 2:
+			name = string([]byte{hi, lo, c})
+			runes = []int{r, int(c)}
+		default:
+			name = string([]byte{c, hi, lo})
+			runes = []int{int(c), r}
+		}
 		vCover("two-byte-rune")
 	default:
 		if !vThorough() {
@@ -197,7 +221,6 @@ func VerifC20Validators() {
 		}
 		name = vString("name2", 2)
 	}
-	n := len(name)
 	isLabel := vBool("isLabel")
 	var err error
 	if isLabel {
@@ -208,18 +231,73 @@ func VerifC20Validators() {
 	ok := err == nil
 	vObserve("ok", ok)
 	hasSlash := false
-	allASCII := true
-	allAlpha := true
-	for i := 0; i < n; i++ {
-		c := name[i]
-		hasSlash = vOr(hasSlash, c == '/')
-		allASCII = vAnd(allASCII, c < 0x80)
-		alpha := vOr(vOr(vAnd(c >= 'a', c <= 'z'), vAnd(c >= 'A', c <= 'Z')), vOr(vAnd(c >= '0', c <= '9'), c == '-'))
-		if isLabel {
-			alpha = vOr(alpha, c == '_')
-		}
-		allAlpha = vAnd(allAlpha, alpha)
+	for i := 0; i < len(name); i++ {
+		hasSlash = vOr(hasSlash, name[i] == '/')
 	}
 	vAssert(vImplies(ok, !hasSlash), "accepted-name-has-no-slash")
-	vAssert(vImplies(allASCII, ok == allAlpha), "ascii-names-accepted-iff-in-documented-alphabet")
+	if runes != nil {
+		want := true
+		for _, r := range runes {
+			m := vAlphaTable[r]
+			mask := byte(1 | 2 | 4)
+			if isLabel {
+				mask |= 8
+			}
+			want = vAnd(want, m&mask != 0)
+		}
+		vAssert(ok == want, "accepted-iff-every-rune-in-documented-alphabet")
+	}
+}
+
+// VerifC20Distinct: metadata paths of different objects never coincide: two
+// paths built by (possibly different) builders from valid names are equal only
+// if they are of the same kind and were built from the same names.
+func VerifC20Distinct() {
+	vBudget(20000000)
+	build := func(tag string) (kind int, p string, a, b string) {
+		kind = vChoose(tag+"kind", 9)
+		n := vChoose(tag+"Len", 2) + 1
+		a = vString(tag+"a", n)
+		for i := 0; i < n; i++ {
+			vAssume(a[i] != '/')
+		}
+		b = "x"
+		if kind == 1 || kind == 6 || kind == 7 || kind == 8 {
+			m := vChoose(tag+"bLen", 2) + 1
+			b = vString(tag+"b", m)
+			for i := 0; i < m; i++ {
+				vAssume(b[i] != '/')
+			}
+		}
+		switch kind {
+		case 0:
+			p = GetArchivePathToRepoDescriptor(a)
+		case 1:
+			p = GetArchivePathToLabel(a, b)
+		case 2:
+			p = GetArchivePathToBundle(a, vKsuid1)
+		case 3:
+			p = GetArchivePathToBundleFileList(a, vKsuid1, 7)
+		case 4:
+			p = GetArchivePathToInitialDiamond(a, vKsuid1)
+		case 5:
+			p = GetArchivePathToFinalDiamond(a, vKsuid1)
+		case 6:
+			p = GetArchivePathToInitialSplit(a, vKsuid1, b)
+		case 7:
+			p = GetArchivePathToFinalSplit(a, vKsuid1, b)
+		default:
+			p = GetArchivePathToSplitFileList(a, vKsuid1, b, vKsuid2, 7)
+		}
+		return
+	}
+	k1, p1, a1, b1 := build("p")
+	k2, p2, a2, b2 := build("q")
+	if k1 != k2 {
+		vCover("different-kinds")
+		vAssert(vNot(vStrEqual(p1, p2)), "paths-of-different-kinds-differ")
+	} else {
+		vCover("same-kind")
+		vAssert(vImplies(vStrEqual(p1, p2), vAnd(vStrEqual(a1, a2), vStrEqual(b1, b2))), "equal-paths-have-equal-names")
+	}
 }
